@@ -180,6 +180,8 @@ class AnnotateLigands(Processor):
                 molecule.add_monomer(current, resname, [(mol_node, current)])
 
                 molecule.nodes[current]["build"] = True
+                if "template" in ligand.nodes[lig_node]:
+                    molecule.nodes[current]["template"] = ligand.nodes[lig_node]["template"]
                 molecule.nodes[current]["ligated"] = (lig_idx,
                                                       lig_node)
                 current += 1
